@@ -318,8 +318,10 @@ impl BinEncodable for u8 {
         ensures final(encoder).name_pointers == old(encoder).name_pointers,
             match r {
                 Ok(_) => final(encoder).offset == old(encoder).offset + 1 && final(encoder).bytes()[old(encoder).offset as int] == *self
-                      && final(encoder).bytes().len() >= old(encoder).bytes().len(),
+                      && final(encoder).bytes().len() == (if old(encoder).offset + 1 > old(encoder).bytes().len() { old(encoder).offset + 1 } else { old(encoder).bytes().len() as int })
+                      && (forall|i: int| old(encoder).offset + 1 <= i < old(encoder).bytes().len() ==> final(encoder).bytes()[i] == old(encoder).bytes()[i]),
                 Err(e) => final(encoder).offset == old(encoder).offset && final(encoder).bytes() == old(encoder).bytes()
+                      && old(encoder).offset + 1 > old(encoder).max()
                       && e == ProtoError::MaxBufferSizeExceeded(old(encoder).buffer.max_size),
             }
 //%end
